@@ -1,16 +1,20 @@
 #!/bin/bash
-# Build the Coq development from files on disk (full .vo build, never -vos/-vok).
-set -e
-cd "$(dirname "$0")/coq"
+# Build the Coq development from files on disk (full .vo build, never -vos/-vok). Serialised by a lock.
+cd "$(dirname "$0")/coq" || exit 1
+exec 9> ../.build.lock
+flock 9
 {
   echo "-R . PV"
   echo "-arg -w -arg -notation-overridden,-deprecated-hint-without-locality,-deprecated-instance-without-locality"
   find . -name '*.v' | sed 's|^\./||' | LC_ALL=C sort
-} > _CoqProject
+} > _CoqProject.new
+cmp -s _CoqProject.new _CoqProject || mv _CoqProject.new _CoqProject
+rm -f _CoqProject.new
 coq_makefile -f _CoqProject -o Makefile > /dev/null
-timeout 3000 make -j"${VERIF_JOBS:-16}" 2>&1 | grep -v 'conda' | grep -v '^Closed under the global context$' || true
-# fail if any .vo is missing
+timeout 3000 make -k -j"${VERIF_JOBS:-16}" 2>&1 | grep -v 'conda' | grep -v '^Closed under the global context$'
+rc=0
 for v in $(find . -name '*.v'); do
-  [ -f "${v%.v}.vo" ] || { echo "setup: missing ${v%.v}.vo"; exit 1; }
+  [ -f "${v%.v}.vo" ] && [ "${v%.v}.vo" -nt "$v" ] || { echo "setup: ${v%.v}.vo missing or stale"; rc=1; }
 done
-echo "setup: coq build ok"
+[ $rc = 0 ] && echo "setup: coq build ok"
+exit $rc
